@@ -14,7 +14,16 @@
   * a different namespace given by the caller is refused (a `raise` under the `is not self.taxon_namespace` test), not overridden;
   * the number returned is the growth of `self._trees` across that call.
 
-What the reader and `TreeList._parse_and_create_from_stream` do with these arguments is bounded only (bounded/C13.py)."""
+
+  whole list, with or without offsets  (TreeList._parse_and_create_from_stream)
+  * the reader is made for the caller's schema and options, from which only `tree_list`, `label` and the namespace keywords are taken out;
+    both branches read the caller's stream;
+  * a tree offset alone means the first collection; the collection selected is `tree_lists[collection_offset]` of what the reader delivered;
+  * with a tree offset every tree from it on is appended in order (`for tree in target[tree_offset:]: tree_list._trees.append(tree)`), without one
+    every tree of the collection; which of the two runs is decided by `tree_offset is not None` alone;
+  * the list returned is the one given as `tree_list=` or a new `cls(label=label, taxon_namespace=taxon_namespace)`.
+
+What the reader does with these arguments (and the no-offset branch's pseudo-factories) is bounded only (bounded/C13.py)."""
 import ast
 import time
 
@@ -133,6 +142,71 @@ def route_obligations(ctx):
                     ib = [i for i, s in enumerate(fn.body) if isinstance(s, ast.Assign) and s.value is bb[0]]
                     ok = bool(ia and ib) and ib[0] < ci < ia[0]
             emit(p + ".returns-the-growth-of-the-list-across-the-read", ok, target, "returns %s" % [ast.unparse(r.value) if r.value is not None else None for r in rets])
+    # ---- TreeList: the whole-list route with and without offsets
+    fn = _method(m, "TreeList", SINK)
+    target = "%s:TreeList.%s" % (TC, SINK)
+    p = "TreeList.%s" % SINK
+    if fn is None:
+        emit(p + ".exists", False, target, "method not found")
+    else:
+        ctx.add_function(target)
+        gr = [n for n in ast.walk(fn) if isinstance(n, ast.Call) and isinstance(n.func, ast.Attribute) and n.func.attr == "get_reader"]
+        ok = len(gr) == 1 and len(gr[0].args) == 1 and _is_name(gr[0].args[0], "schema") and _passes_kwargs(gr[0], fn) and len(gr[0].keywords) == 1
+        emit(p + ".reader-made-for[schema, **kwargs]", ok, target, "get_reader call: %s" % (ast.unparse(gr[0]) if gr else "none"))
+        # the only things taken out of the options before the reader is made: tree_list, label, and the namespace keywords (by the one library function for that)
+        pops = [n for n in ast.walk(fn) if isinstance(n, ast.Call) and isinstance(n.func, ast.Attribute) and _is_name(n.func.value, "kwargs")]
+        popped = sorted(ast.unparse(c.args[0]) if c.func.attr == "pop" and c.args else "?" + c.func.attr for c in pops)
+        stores = [n for n in ast.walk(fn) if isinstance(n, ast.Subscript) and _is_name(n.value, "kwargs") and isinstance(n.ctx, (ast.Store, ast.Del))]
+        passed = [n for n in ast.walk(fn) if isinstance(n, ast.Call) and any(_is_name(a, "kwargs") for a in n.args)]
+        ok = popped == ["'label'", "'tree_list'"] and not stores and len(passed) == 1 and ast.unparse(passed[0].func).endswith("process_kwargs_dict_for_taxon_namespace")
+        emit(p + ".only[tree_list, label, namespace keywords]-are-taken-out-of-the-options", ok, target,
+             "popped: %s; stores: %s; kwargs handed to: %s" % (popped, [ast.unparse(x) for x in stores], [ast.unparse(x.func) for x in passed]))
+        rc = _calls(fn, "read_tree_lists")
+        ok = len(rc) == 2 and all(_is_name(_kw(c, "stream"), "stream") for c in rc) and not _bindings(fn, "stream") and not _bindings(fn, "schema")
+        emit(p + ".every-branch-reads-the-caller's-stream", ok, target, "%d read_tree_lists call(s)" % len(rc))
+        # collection_offset: bound only by `if collection_offset is None and tree_offset is not None: collection_offset = 0`; tree_offset: never bound
+        cb = _bindings(fn, "collection_offset")
+        ok = False
+        for st in fn.body:
+            if isinstance(st, ast.If) and not st.orelse and len(st.body) == 1 and isinstance(st.body[0], ast.Assign) and len(cb) == 1 and st.body[0].value is cb[0] and \
+                    isinstance(cb[0], ast.Constant) and cb[0].value == 0 and type(cb[0].value) is int and \
+                    ast.unparse(st.test) == "collection_offset is None and tree_offset is not None":
+                ok = True
+        emit(p + ".a-tree-offset-alone-means-the-first-collection", ok and not _bindings(fn, "tree_offset"), target,
+             "bindings: collection_offset %s, tree_offset %s" % ([ast.unparse(x) for x in cb if isinstance(x, ast.expr)], len(_bindings(fn, "tree_offset"))))
+        rets = [n for n in ast.walk(fn) if isinstance(n, ast.Return)]
+        lname = rets[0].value.id if len(rets) == 1 and isinstance(rets[0].value, ast.Name) else None
+        loops = [n for n in ast.walk(fn) if isinstance(n, ast.For)]
+        tb = None
+        for n in ast.walk(fn):
+            if isinstance(n, ast.Assign) and isinstance(n.value, ast.Subscript) and _is_name(n.value.slice, "collection_offset") and len(n.targets) == 1 and isinstance(n.targets[0], ast.Name):
+                tb = n
+        tname = tb.targets[0].id if tb is not None else None
+        srcname = tb.value.value.id if tb is not None and isinstance(tb.value.value, ast.Name) else None
+        srcb = _bindings(fn, srcname) if srcname else []
+        ok = tname is not None and len(_bindings(fn, tname)) == 1 and len(srcb) == 1 and any(srcb[0] is c for c in rc)
+        emit(p + ".the-collection-selected-is[tree_lists[collection_offset]]-of-what-the-reader-delivered", ok, target, "target bound by %s" % (ast.unparse(tb) if tb is not None else None))
+
+        def appends_each(loop):
+            return len(loop.body) == 1 and isinstance(loop.body[0], ast.Expr) and isinstance(loop.body[0].value, ast.Call) and not loop.orelse and \
+                isinstance(loop.target, ast.Name) and ast.unparse(loop.body[0].value) == "%s._trees.append(%s)" % (lname, loop.target.id)
+        with_off = [l for l in loops if isinstance(l.iter, ast.Subscript) and isinstance(l.iter.slice, ast.Slice)]
+        without = [l for l in loops if isinstance(l.iter, ast.Name)]
+        ok = len(with_off) == 1 and _is_name(with_off[0].iter.value, tname) and _is_name(with_off[0].iter.slice.lower, "tree_offset") and \
+            with_off[0].iter.slice.upper is None and with_off[0].iter.slice.step is None and appends_each(with_off[0])
+        emit(p + ".with-a-tree-offset-every-tree-from-it-on-is-appended-in-order", ok, target, "loops over a slice: %s" % [ast.unparse(l.iter) for l in with_off])
+        ok = len(without) == 1 and _is_name(without[0].iter, tname) and appends_each(without[0]) and len(loops) == 2
+        emit(p + ".without-one-every-tree-of-the-collection-is-appended-in-order", ok, target, "loops: %s" % [ast.unparse(l.iter) for l in loops])
+        # which loop runs is decided by `tree_offset is not None` alone
+        sel = False
+        for n in ast.walk(fn):
+            if isinstance(n, ast.If) and ast.unparse(n.test) == "tree_offset is not None" and with_off and without and \
+                    any(x is with_off[0] for st in n.body for x in ast.walk(st)) and any(x is without[0] for st in n.orelse for x in ast.walk(st)):
+                sel = True
+        emit(p + ".the-offset-branch-is-taken-exactly-when-an-offset-is-given", sel, target, "no `if tree_offset is not None:` separating the two loops")
+        lb = _bindings(fn, lname) if lname else []
+        ok = lname is not None and len(lb) == 2 and sorted(ast.unparse(x) for x in lb) == ["cls(label=label, taxon_namespace=taxon_namespace)", "kwargs.pop('tree_list', None)"]
+        emit(p + ".returns-the-list-given-or-a-new-one-of-the-class-asked", ok, target, "returned name %s bound to %s" % (lname, [ast.unparse(x) for x in lb if isinstance(x, ast.expr)]))
     return out
 
 
@@ -153,6 +227,20 @@ def native_offsets_disagree():
                     got = "raises %s" % type(e).__name__
                 if got != want:
                     return dict(text=nexus, options=kw, route="Tree.get", got=got, want=want)
+    for ci, tl in enumerate(ds.tree_lists):
+        for ti in range(len(tl)):
+            want = [t.as_string("newick").strip() for t in tl[ti:]]
+            for kw in (dict(collection_offset=ci, tree_offset=ti),) + ((dict(tree_offset=ti),) if ci == 0 else ()) + ((dict(collection_offset=ci),) if ti == 0 else ()):
+                try:
+                    got = [t.as_string("newick").strip() for t in dendropy.TreeList.get(data=nexus, schema="nexus", **kw)]
+                except Exception as e:  # noqa
+                    got = "raises %s" % type(e).__name__
+                if got != want:
+                    return dict(text=nexus, options=kw, route="TreeList.get", got=got, want=want)
+    allt = [t.as_string("newick").strip() for tl in ds.tree_lists for t in tl]
+    got = [t.as_string("newick").strip() for t in dendropy.TreeList.get(data=nexus, schema="nexus")]
+    if got != allt:
+        return dict(text=nexus, options={}, route="TreeList.get", got=got, want=allt)
     for text, schema in ((nexus, "nexus"), ("(A,(B,C));((A,B),C);\n", "newick")):
         tl = dendropy.TreeList()
         n1 = tl.read(data=text, schema=schema)
